@@ -90,5 +90,19 @@ DrawsComplete == AllWorkersDone => \A c \in Chains : Len(out[c]) = Total - NDisc
 ExitOnlyWhenAllFinal == rpc = "exit" => (\A c \in Chains : recent[c] = Total)
 \* a chain is counted once
 CountOnce == nFinished <= N /\ nFinished = Cardinality({c \in Chains : recent[c] = Total /\ \A j \in 1..Len(active) : active[j] # c /\ c < nextActive})
+\* The bookkeeping pass as a SET operation (the abstraction apalache/ProgressInd.tla proves inductive for N = 16):
+\* the order in which the bars are visited does not matter -- the finished shown chains leave, the first `take`
+\* waiting chains enter, and exactly the finished ones are counted.
+BookAsSets ==
+  rpc = "book" =>
+    LET b == Book(active, nextActive, nFinished, recent)
+        shownSet == {active[j] : j \in 1..Len(active)}
+        fin == {c \in shownSet : recent[c] = Total}
+        k == Cardinality(fin)
+        avail == N - nextActive + 1
+        take == IF ReporterBug = "no_recycle" THEN 0 ELSE IF k < avail THEN k ELSE avail
+    IN /\ {b.active[j] : j \in 1..Len(b.active)} = (shownSet \ fin) \cup {c \in Chains : nextActive <= c /\ c < nextActive + take}
+       /\ b.next = nextActive + take
+       /\ b.fin = nFinished + k
 BarsBounded == Len(active) <= MaxBars /\ \A j, k \in 1..Len(active) : j # k => active[j] # active[k]
 =============================================================================
